@@ -2,13 +2,15 @@
 CONSTANTS
   Batches <- DesignBatches2
   Observers <- ObsModes
-  M = 2
-  Per = 1
+  M = 4
+  Per = 2
   Faults = {}
   MaxFaults = 0
   Pickle = "ascoded"
+  Variant = "ascoded"
 SPECIFICATION Spec
 INVARIANT TypeOK
+INVARIANT ChildBudgetAgree
 INVARIANT TimeoutAgree
 INVARIANT ExceptionsAgree
 INVARIANT LinesAgree
